@@ -217,11 +217,24 @@ pub fn decode_cbor(input: &[u8]) -> Result<Value, DecodeError> {
   decode_value(&mut decoder)
 }
 
+/// RFC 8949 3.3: a simple value below 32 must use the one-byte form; the
+/// two-byte sequences `f8 00`..`f8 1f` are not well-formed. `width` is the
+/// number of bytes the head occupied on the wire (a header that was pushed
+/// back is re-read in its shortest form, so callers check before pushing).
+fn check_simple_width(header: &Header, width: usize, at: usize) -> Result<(), DecodeError> {
+  match header {
+    Header::Simple(s) if *s < 32 && width > 1 => Err(DecodeError::Syntax(at)),
+    _ => Ok(()),
+  }
+}
+
 fn decode_value<R: ciborium_io::Read>(decoder: &mut Decoder<R>) -> Result<Value, DecodeError>
 where
   ciborium_ll::Error<R::Error>: Into<DecodeError>,
 {
+  let start = decoder.offset();
   let header = decoder.pull().map_err(Into::into)?;
+  check_simple_width(&header, decoder.offset() - start, start)?;
   match header {
     Header::Positive(v) => Ok(Value::Integer(Integer::from(v))),
     Header::Negative(v) => {
@@ -380,10 +393,12 @@ where
       let mut items = Vec::new();
       loop {
         // Peek at the next header to check for break
+        let start = decoder.offset();
         let h = decoder.pull().map_err(Into::into)?;
         if h == Header::Break {
           break;
         }
+        check_simple_width(&h, decoder.offset() - start, start)?;
         decoder.push(h);
         items.push(decode_value(decoder)?);
       }
@@ -413,10 +428,12 @@ where
       // Indefinite-length map
       let mut entries = Vec::new();
       loop {
+        let start = decoder.offset();
         let h = decoder.pull().map_err(Into::into)?;
         if h == Header::Break {
           break;
         }
+        check_simple_width(&h, decoder.offset() - start, start)?;
         decoder.push(h);
         let key = decode_value(decoder)?;
         let val = decode_value(decoder)?;
